@@ -1,0 +1,10 @@
+//go:build !verif
+
+package blobclient
+
+import "github.com/cenkalti/backoff"
+
+// verifPollBackOff lets the verification harness replace the poll back-off of
+// the cluster client; without the verif build tag it is an empty function that
+// the compiler inlines away.
+func verifPollBackOff() backoff.BackOff { return nil }
